@@ -27,6 +27,18 @@ const (
 	ratioMax   = 6.0
 	ratioFloor = 4 * time.Millisecond
 	scaleCap   = 3 * time.Second
+	// round 3: the same probes read the PROCESS CPU clock (getrusage RUSAGE_SELF, user + system) next to the
+	// thread clock, so that work handed to another goroutine is charged too: Tproc(2n)/Tproc(n) <= procRatioMax once
+	// Tproc(2n) > procRatioFloor (the process clock also contains the garbage collector's background workers and has
+	// a coarser noise floor); and the ALLOCATION scaling rule A(2n)/A(n) <= allocRatioMax once A(2n) > allocRatioFloor
+	// (a routine that allocates proportionally to its input gives 2; one that allocates quadratically gives 4)
+	procRatioMax    = 6.0
+	procRatioFloor  = 20 * time.Millisecond
+	allocRatioMax   = 3.0
+	allocRatioFloor = 256 << 10
+	// Base58 decoding (math/big accumulation, operands grown four words at a time) legitimately allocates
+	// quadratically with a small constant: its families use this limit (quadratic 4 passes, cubic 8 does not)
+	b58AllocRatioMax = 5.0
 )
 
 var cfg vh.Config
@@ -82,22 +94,41 @@ func cpuNow() time.Duration {
 	return time.Duration(ts.Sec)*time.Second + time.Duration(ts.Nsec)
 }
 
+// procNow is the CPU time (user + system) of the whole process: every thread, hence every goroutine the code under
+// test may have started.  Round 3 (red team): a parser that hands its work to a worker goroutine costs the calling
+// thread nothing; the per-call budget and the scaling rules therefore read BOTH clocks.
+func procNow() time.Duration {
+	var ru syscall.Rusage
+	if err := syscall.Getrusage(syscall.RUSAGE_SELF, &ru); err != nil {
+		return 0
+	}
+	return time.Duration(ru.Utime.Sec+ru.Stime.Sec)*time.Second + time.Duration(ru.Utime.Usec+ru.Stime.Usec)*time.Microsecond
+}
+
 // ---------- guarded call ----------
 type outcome struct {
 	panicked bool
 	msg      string
-	dt       time.Duration
+	dt       time.Duration // max(thread CPU, process CPU) of the call
+	thread   time.Duration
+	proc     time.Duration
 	alloc    uint64
 }
 
 func measure(f func()) outcome {
 	var m0, m1 runtime.MemStats
 	runtime.ReadMemStats(&m0)
+	p0 := procNow()
 	t0 := cpuNow()
 	p, msg := vh.Catch(f)
 	dt := cpuNow() - t0
+	dp := procNow() - p0
 	runtime.ReadMemStats(&m1)
-	return outcome{p, msg, dt, m1.TotalAlloc - m0.TotalAlloc}
+	d := dt
+	if dp > d {
+		d = dp
+	}
+	return outcome{p, msg, d, dt, dp, m1.TotalAlloc - m0.TotalAlloc}
 }
 
 // budget of a call; extraAlloc is what a dependency was measured to allocate on the same input
@@ -124,7 +155,7 @@ func g(entry, stream, key string, b budget, replay func() interface{}, f func() 
 		for i := 0; i < 2 && o.dt > b.timeMax(); i++ {
 			o2 := measure(func() { f() })
 			if o2.dt < o.dt {
-				o.dt = o2.dt
+				o.dt, o.thread, o.proc = o2.dt, o2.thread, o2.proc
 			}
 			if o2.alloc < o.alloc {
 				o.alloc = o2.alloc
@@ -145,7 +176,7 @@ func g(entry, stream, key string, b budget, replay func() interface{}, f func() 
 		return false
 	}
 	if o.dt > b.timeMax() {
-		rep.Violate("C08:"+entry+":time", fmt.Sprintf("%s took %v on an input of %d bytes (budget %v)", entry, o.dt, b.n, b.timeMax()),
+		rep.Violate("C08:"+entry+":time", fmt.Sprintf("%s took %v of CPU time (calling thread %v, whole process %v) on an input of %d bytes (budget %v)", entry, o.dt, o.thread, o.proc, b.n, b.timeMax()),
 			map[string]interface{}{"entry": entry, "stream": stream, "input": replay(), "elapsed_ms": o.dt.Milliseconds(), "budget_ms": b.timeMax().Milliseconds(), "input_len": b.n})
 	}
 	if !b.noAlloc && o.alloc > b.allocMax() {
@@ -161,51 +192,105 @@ func g(entry, stream, key string, b budget, replay func() interface{}, f func() 
 var maxAllocSeen = map[string]uint64{}
 
 // scaleProbe measures run(n) and run(2n) (minimum of reps runs each; build prepares a fresh input so that
-// state mutated by the call does not leak between runs) and applies the ratio rule.
+// state mutated by the call does not leak between runs) and applies the ratio rules: thread CPU time, process CPU
+// time (work done on other goroutines) and allocated bytes.
 func scaleProbe(entry string, n int, reps int, build func(n int) (run func(), replay func() interface{})) {
-	tmin := func(n int) (time.Duration, func() interface{}, bool) {
-		best := time.Duration(1 << 62)
+	scaleProbeOpt(entry, n, reps, allocRatioMax, build)
+}
+
+type scaleM struct {
+	thread, proc time.Duration
+	alloc        uint64
+}
+
+// hungEntries: entry points on which the size-sweep child process (sizes.go) saw a hang; the in-process scaling
+// probes of those entries are skipped (they would only hang the harness itself on the same defect).
+var hungEntries = map[string]bool{}
+
+// scaleProbeOpt: allocMax is the allocation-ratio limit of this family (allocRatioMax unless the notes say why not).
+func scaleProbeOpt(entry string, n int, reps int, allocMax float64, build func(n int) (run func(), replay func() interface{})) {
+	if hungEntries[entry] {
+		return
+	}
+	tmin := func(n int) (scaleM, func() interface{}, bool) {
+		best := scaleM{time.Duration(1 << 62), time.Duration(1 << 62), ^uint64(0)}
 		var rp func() interface{}
 		for i := 0; i < reps; i++ {
 			run, r := build(n)
 			rp = r
 			wd.begin(entry, r)
-			t0 := cpuNow()
-			p, msg := vh.Catch(run)
-			d := cpuNow() - t0
+			o := measure(run)
 			wd.end()
 			rep.Count(entry+"/scale", fmt.Sprintf("%s|scale%d", entry, n), true)
-			if p {
-				rep.Violate("C08:"+entry+":panic", entry+" panicked in the scaling probe: "+msg, map[string]interface{}{"entry": entry, "size_parameter": n, "input": r(), "panic": msg})
-				return 0, r, false
+			if o.panicked {
+				rep.Violate("C08:"+entry+":panic", entry+" panicked in the scaling probe: "+o.msg, map[string]interface{}{"entry": entry, "size_parameter": n, "input": r(), "panic": o.msg})
+				return best, r, false
 			}
-			if d < best {
-				best = d
+			if o.thread < best.thread {
+				best.thread = o.thread
 			}
-			if d > scaleCap {
+			if o.proc < best.proc {
+				best.proc = o.proc
+			}
+			if o.alloc < best.alloc {
+				best.alloc = o.alloc
+			}
+			if o.dt > scaleCap {
 				break
 			}
 		}
 		return best, rp, true
 	}
-	t1, _, ok := tmin(n)
+	worst := func(m scaleM) time.Duration {
+		if m.proc > m.thread {
+			return m.proc
+		}
+		return m.thread
+	}
+	m1, _, ok := tmin(n)
 	if !ok {
 		return
 	}
-	if t1 > scaleCap {
+	if worst(m1) > scaleCap {
 		_, r := build(n)
-		rep.Violate("C08:"+entry+":time", fmt.Sprintf("%s: size parameter %d took %v (cap %v)", entry, n, t1, scaleCap), map[string]interface{}{"entry": entry, "size_parameter": n, "elapsed_ms": t1.Milliseconds(), "input": r()})
+		rep.Violate("C08:"+entry+":time", fmt.Sprintf("%s: size parameter %d took %v of CPU time (thread %v, process %v; cap %v)", entry, n, worst(m1), m1.thread, m1.proc, scaleCap),
+			map[string]interface{}{"entry": entry, "size_parameter": n, "elapsed_ms": worst(m1).Milliseconds(), "input": r()})
 		return
 	}
-	t2, r2, ok := tmin(2 * n)
+	m2, r2, ok := tmin(2 * n)
 	if !ok {
 		return
 	}
-	ratio := float64(t2) / float64(t1+1)
-	scaleObs = append(scaleObs, map[string]interface{}{"entry": entry, "n": n, "t_n_us": t1.Microseconds(), "t_2n_us": t2.Microseconds(), "ratio": fmt.Sprintf("%.2f", ratio)})
-	if t2 > scaleCap || (t2 > ratioFloor && ratio > ratioMax) {
-		rep.Violate("C08:"+entry+":time", fmt.Sprintf("%s grows faster than quadratically: T(%d)=%v, T(%d)=%v, ratio %.1f (max %.1f, cap %v)", entry, n, t1, 2*n, t2, ratio, ratioMax, scaleCap),
-			map[string]interface{}{"entry": entry, "size_parameter": 2 * n, "t_n_us": t1.Microseconds(), "t_2n_us": t2.Microseconds(), "ratio": ratio, "input": r2()})
+	ratio := float64(m2.thread) / float64(m1.thread+1)
+	pratio := float64(m2.proc) / float64(m1.proc+1)
+	aratio := float64(m2.alloc) / float64(m1.alloc+1)
+	scaleObs = append(scaleObs, map[string]interface{}{"entry": entry, "n": n, "t_n_us": m1.thread.Microseconds(), "t_2n_us": m2.thread.Microseconds(), "ratio": fmt.Sprintf("%.2f", ratio),
+		"proc_n_us": m1.proc.Microseconds(), "proc_2n_us": m2.proc.Microseconds(), "proc_ratio": fmt.Sprintf("%.2f", pratio),
+		"alloc_n": m1.alloc, "alloc_2n": m2.alloc, "alloc_ratio": fmt.Sprintf("%.2f", aratio)})
+	if worst(m2) > scaleCap || (m2.thread > ratioFloor && ratio > ratioMax) {
+		rep.Violate("C08:"+entry+":time", fmt.Sprintf("%s grows faster than quadratically: T(%d)=%v, T(%d)=%v, ratio %.1f (max %.1f, cap %v; process CPU %v -> %v)", entry, n, m1.thread, 2*n, m2.thread, ratio, ratioMax, scaleCap, m1.proc, m2.proc),
+			map[string]interface{}{"entry": entry, "size_parameter": 2 * n, "t_n_us": m1.thread.Microseconds(), "t_2n_us": m2.thread.Microseconds(), "ratio": ratio, "proc_n_us": m1.proc.Microseconds(), "proc_2n_us": m2.proc.Microseconds(), "input": r2()})
+	} else if m2.proc > procRatioFloor && pratio > procRatioMax {
+		// confirm once (the process clock contains the garbage collector's workers): both sizes again
+		m1b, _, ok1 := tmin(n)
+		m2b, _, ok2 := tmin(2 * n)
+		if ok1 && ok2 {
+			if m1b.proc > m1.proc { // the larger T(n) and the smaller T(2n): the most favourable reading
+				m1.proc = m1b.proc
+			}
+			if m2b.proc < m2.proc {
+				m2.proc = m2b.proc
+			}
+			pratio = float64(m2.proc) / float64(m1.proc+1)
+		}
+		if m2.proc > procRatioFloor && pratio > procRatioMax {
+			rep.Violate("C08:"+entry+":time", fmt.Sprintf("%s grows faster than quadratically in PROCESS CPU time (all goroutines; the calling thread saw %v -> %v): Tproc(%d)=%v, Tproc(%d)=%v, ratio %.1f (max %.1f)", entry, m1.thread, m2.thread, n, m1.proc, 2*n, m2.proc, pratio, procRatioMax),
+				map[string]interface{}{"entry": entry, "size_parameter": 2 * n, "clock": "getrusage(RUSAGE_SELF) user+system", "proc_n_us": m1.proc.Microseconds(), "proc_2n_us": m2.proc.Microseconds(), "ratio": pratio, "t_n_us": m1.thread.Microseconds(), "t_2n_us": m2.thread.Microseconds(), "input": r2()})
+		}
+	}
+	if m2.alloc > allocRatioFloor && aratio > allocMax {
+		rep.Violate("C08:"+entry+":alloc", fmt.Sprintf("%s: allocation grows faster than the input: A(%d)=%d bytes, A(%d)=%d bytes, ratio %.2f (max %.1f)", entry, n, m1.alloc, 2*n, m2.alloc, aratio, allocMax),
+			map[string]interface{}{"entry": entry, "size_parameter": 2 * n, "alloc_n": m1.alloc, "alloc_2n": m2.alloc, "ratio": aratio, "rule": "A(2n)/A(n) <= limit once A(2n) > 256 KiB", "input": r2()})
 	}
 }
 
